@@ -436,6 +436,20 @@ def _resolve_call(prog, fi, call, local_classes):
         if name in EXTERNAL_METHODS:
             return [], "external"
         cands = [m for m in _methods_named(prog, name) if not m.is_static]
+        # same name is not enough when the call cannot be a call of that method: too many arguments, or a keyword it does not have
+        if not any(isinstance(a, ast.Starred) for a in call.args) and not any(k.arg is None for k in call.keywords):
+            def fits(m):
+                a = m.node.args
+                if a.vararg is not None or a.kwarg is not None:
+                    return True
+                ps = [x.arg for x in a.args][1:] if not m.is_static else [x.arg for x in a.args]     # without self / cls
+                names = set(ps) | {x.arg for x in a.kwonlyargs}
+                required = len(ps) - len(a.defaults)
+                given = len(call.args) + len([k for k in call.keywords if k.arg in ps])
+                return len(call.args) <= len(ps) and all(k.arg in names for k in call.keywords) and given >= required
+            fitting = [m for m in cands if fits(m)]
+            if fitting:
+                cands = fitting
         if len(cands) == 1:
             return cands, "byname-unique"
         if cands:
